@@ -138,9 +138,20 @@ func (w *Writer) writeByte(v byte) *Writer {
 // 若任一步骤失败，会回滚缓冲区到调用前长度，并保证 Bytes() 不包含部分写入的数据。
 func (w *Writer) WriteMessage(message any, codec Codec) (err error) {
 	startLen := len(w.buf)
+	if message == nil {
+		// nil 消息：空消息体 + 保留名称，ReadMessage 对应还原为 nil
+		w.WriteBytesWithLength(nil, LengthSize4)
+		if err = w.WriteFrom(nilMessageName); err != nil {
+			w.buf = w.buf[:startLen]
+		}
+		return err
+	}
 	messageDesc := QueryMessageDesc(message)
 
 	if messageDesc.IsOutside() {
+		if codec == nil {
+			return fmt.Errorf("message type %T is not registered and no codec is configured", message)
+		}
 		data, encErr := codec.Encode(message)
 		if encErr != nil {
 			return encErr
